@@ -61,6 +61,7 @@ func lockH(s *simrt.Sim, t *simrt.Task, r *simrt.Req) simrt.Status {
 		return simrt.Block
 	}
 	m.held = true
+	s.Sync(t, "acquire", r.P, 0)
 	s.Ev(t, "lock", ord(s, r.P), 0)
 	return simrt.Done
 }
@@ -72,6 +73,7 @@ func lockReady(s *simrt.Sim, t *simrt.Task) bool {
 
 //go:norace
 func unlockH(s *simrt.Sim, t *simrt.Task, r *simrt.Req) simrt.Status {
+	s.Sync(t, "release", r.P, 0)
 	s.Ev(t, "unlock", ord(s, r.P), 0)
 	return simrt.Done
 }
@@ -173,6 +175,7 @@ func wlockH(s *simrt.Sim, t *simrt.Task, r *simrt.Req) simrt.Status {
 		return simrt.Block
 	}
 	m.w = true
+	s.Sync(t, "acquire", r.P, 0)
 	s.Ev(t, "wlock", ord(s, r.P), 0)
 	return simrt.Done
 }
@@ -451,6 +454,7 @@ type WaitGroup struct {
 
 //go:norace
 func wgAddH(s *simrt.Sim, t *simrt.Task, r *simrt.Req) simrt.Status {
+	s.Sync(t, "wg-add", r.P, r.I0)
 	s.Ev(t, "wg-add", ord(s, r.P), r.I0)
 	return simrt.Done
 }
@@ -467,6 +471,7 @@ func wgWaitH(s *simrt.Sim, t *simrt.Task, r *simrt.Req) simrt.Status {
 		t.BlockedOn = "waitgroup"
 		return simrt.Block
 	}
+	s.Sync(t, "wg-wait", r.P, 0)
 	s.Ev(t, "wg-waited", ord(s, r.P), 0)
 	return simrt.Done
 }
